@@ -158,6 +158,10 @@ def random_ages(rng, tau):
         ages = [near() for _ in range(rng.randrange(1, 5))] + [270.0, -130.0, f32(tau)]
         ages += [rng.choice(ages)]
         rng.shuffle(ages)
+    if rng.random() < 0.2:
+        # "time since baseline" cohorts: the age 0 itself (and small negative ages) are ordinary requests
+        ages = ages + [0.0] + ([-1.5] if rng.random() < 0.5 else [])
+        rng.shuffle(ages)
     return [f32(a) for a in ages], style
 
 
